@@ -13,7 +13,7 @@ import (
 func init() {
 	register(&propSpec{
 		ID: "C53",
-		Explanation: "Decides three necessary conditions of 'decoders never crash or over-allocate', not the absence of crashes: (alloc-size-guarded) in the decoder packages every make/Grow/io.CopyN whose size derives from a decoded integer " +
+		Explanation: "Decides three necessary conditions of 'decoders never crash or over-allocate', not the absence of crashes: (alloc-size-guarded) in the decoder packages every make/Grow/slices.Grow/io.CopyN whose size derives from a decoded integer " +
 			"(encoding/binary, utils/binary readers, LEB128/variable-width decoders, strconv.Parse*; followed through local variables, struct fields assigned from such values anywhere in the package, and parameters that receive them) " +
 			"is reachable only across a comparison on that value, is clamped with min(), or is in the reviewed table naming the bound that covers it; " +
 			"(no-explicit-panic) every panic call in the decoder packages is in the reviewed table (input-independent); (buffer-discipline) no bufio view is used after the reader moved on and no byte-wise string loop iterates by runes. " +
